@@ -39,7 +39,7 @@ MANIFEST = {
 
 HERE = os.path.abspath(__file__)
 APPS = ['A', 'B', 'D']
-NESTED = ['none', 'call', 'copy', 'request', 'response', 'ombott', 'mutq']
+NESTED = ['none', 'call', 'copy', 'request', 'response', 'ombott', 'mutq', 'st520s', 'st520n']
 QS = 'tok=1&k=v&k=w'        # the same query string for every request of every application
 
 
@@ -61,6 +61,9 @@ def menu():
     m.append(('serve', 'D', 'redir', None))
     for y in ('A', 'B'):
         m.append(('serve', 'D', 'redir', y))
+    # a chunked urlencoded form (no Content-Length) read through request.forms
+    for x in APPS:
+        m.append(('serve', x, 'cform', None))
     return m + menu_errors()
 
 
@@ -97,7 +100,7 @@ class World:
         rq, rs = app.request, app.response
         try:
             o = (rq.path, tuple(sorted((k, tuple(v) if isinstance(v, list) else v) for k, v in rq.query.items())), rq.method,
-                 rq.headers.get('X-Req'), rq.get_cookie('sid'),
+                 rq.headers.get('X-Req'), rq.get_cookie('sid'), tuple(sorted(rq.forms.items())), tuple(sorted(rq.files.keys())),
                  rs.status_code, tuple(sorted(rs.headers.dict.items())), tuple(sorted(rs._cookies.keys())) if rs._cookies else ())
         except Exception as e:   # noqa
             o = ('EXC', type(e).__name__, str(e)[:80])
@@ -121,6 +124,10 @@ class World:
                 w.snap(name, rid, 'p3')
                 w.om.redirect('/next/' + rid)
             w.snap(name, rid, 'p3')
+            if op and op[0] == 'st520s':
+                app.response.status = '520 Own Phrase Of ' + name      # a private status code with the application's own phrase
+            if op and op[0] == 'st520n':
+                app.response.status = 520                              # the same code given as a number: no phrase of anybody else
             if op and op[0] == 'mutq':
                 # a handler may edit its own parsed query; nobody else must notice
                 app.request.query.pop('tok', None)
@@ -131,6 +138,10 @@ class World:
         def body(rid):
             return app.request.body.read()
         app.route('/b/<rid>', 'POST', body)
+
+        def form(rid):
+            return repr((sorted(app.request.forms.items()), sorted(app.request.params.items())))
+        app.route('/f/<rid>', 'POST', form)
 
     def nested(self, name, op):
         kind, y = op
@@ -157,7 +168,11 @@ class World:
         rid = str(self.counter)
         if kind != 'plain':
             h = {'Accept': 'application/json'} if kind == 'badj' else {}
-            if kind == 'chunk':
+            if kind == 'cform':
+                fb = b's=%s%s' % (name.encode(), rid.encode())          # within max_body_size
+                raw = b'%x\r\n%s\r\n0\r\n\r\n' % (len(fb), fb)
+                env = wsgi.environ('POST', f'/f/{rid}', qs='who=' + name, body=raw, chunked=True, ctype='application/x-www-form-urlencoded', headers=h)
+            elif kind == 'chunk':
                 # a well-formed chunked body of the application's own letter, in two chunks of app-specific sizes
                 a, b = {'A': (3, 2), 'B': (1, 6), 'D': (2, 2)}[name]
                 ch = name.lower().encode()
@@ -184,7 +199,7 @@ class World:
             errs = sut.sub('request_pkg.errors')
             self.om.Ombott({'errors_map': {errs.BodySizeError: self.om.HTTPError(422, 'own error map')}, 'max_body_size': 4})
             return None
-        if n in ('badj', 'badh', 'big'):
+        if n in ('badj', 'badh', 'big', 'cform'):
             return self.request(x, None, n)
         if kind == 'outside':
             # between requests: copying the request object of an idle application, then looking at it again
@@ -198,15 +213,15 @@ class World:
 
 
 def expected_obs(name, rid):
-    base = (f'/h/{rid}', (('k', ('v', 'w')), ('tok', '1')), 'GET', name + rid, name + rid)
+    base = (f'/h/{rid}', (('k', ('v', 'w')), ('tok', '1')), 'GET', name + rid, name + rid, (), ())
     p1 = base + (200, (), ())
     p2 = base + (201, (('X-App', name + rid),), ('c' + name,))
     return {'p1': p1, 'p2': p2, 'p3': p2}
 
 
-def expected_response(name, rid):
+def expected_response(name, rid, nested=None):
     body = f'{name}:{rid}'.encode()
-    return ('201 Created', (('X-App', name + rid), ('Content-Length', str(len(body))), ('Content-Type', 'text/html; charset=UTF-8'),
+    return ({'st520s': '520 Own Phrase Of ' + name, 'st520n': '520 Unknown'}.get(nested, '201 Created'), (('X-App', name + rid), ('Content-Length', str(len(body))), ('Content-Type', 'text/html; charset=UTF-8'),
                             ('Set-Cookie', f'c{name}={rid}')), body)
 
 
@@ -256,7 +271,7 @@ def run_history(hist):
                 exp = ('303 See Other', (('X-App', name + rid), ('Location', f'http://{name.lower()}.test/next/{rid}'), ('Content-Length', '0'),
                                          ('Content-Type', 'text/html; charset=UTF-8'), ('Set-Cookie', f'c{name}={rid}')), b'')
             else:
-                exp = expected_response(name, rid) if k not in ('badj', 'badh', 'big') else lone_response(name, k, rid)
+                exp = expected_response(name, rid, k) if k not in ('badj', 'badh', 'big', 'cform') else lone_response(name, k, rid)
             if resp != exp:
                 v = ('response', f'application {name}, request {rid} answered {resp!r}; alone it answers {exp!r}')
                 break
